@@ -1,12 +1,18 @@
 module verif/harness
 
-go 1.26
+go 1.26.0
 
 require (
+	buf.build/gen/go/bufbuild/protovalidate/protocolbuffers/go v1.36.11-20260209202127-80ab13bee0bf.1
 	github.com/SebastienMelki/sebuf v0.0.0
+	golang.org/x/tools v0.50.0
 	google.golang.org/protobuf v1.36.11
 	verif/simrt v0.0.0
-	buf.build/gen/go/bufbuild/protovalidate/protocolbuffers/go v1.36.11-20260209202127-80ab13bee0bf.1
+)
+
+require (
+	golang.org/x/mod v0.41.0 // indirect
+	golang.org/x/sync v0.23.0 // indirect
 )
 
 replace github.com/SebastienMelki/sebuf => /repo
